@@ -18,6 +18,7 @@ import (
 	"sync"
 	"time"
 
+	"github.com/grailbio/base/errors"
 	"github.com/grailbio/base/retry"
 	"github.com/grailbio/bigmachine"
 	"github.com/grailbio/bigmachine/testsystem"
@@ -323,4 +324,14 @@ func VerifDumpTasks(roots []*Task, invIndex uint64) []string {
 	}
 	sort.Strings(lines)
 	return lines
+}
+
+// VerifReviseSeverity runs an error of the given severity (wrapped as an application error if app) through
+// reviseSeverity and returns the resulting severity.
+func VerifReviseSeverity(app bool, sev int) int {
+	var err error = errors.E(errors.Severity(sev), "verif")
+	if app {
+		err = maybeTaskFatalErr{err}
+	}
+	return int(errors.Recover(reviseSeverity(err)).Severity)
 }
